@@ -114,6 +114,14 @@ SB_OP(walk)
             break;
     }
     add(out, (long long)rc);
+    // wherever the walk ended (also after a failed step): rewinding puts the cursor back on the first record
+    sb_error_t rr = sb_binary_file_rewind(&o.parser);
+    if (rr == SB_SUCCESS) {
+        sb_binary_block_t blk = sb_binary_file_get_current_block(&o.parser);
+        add(out, "R0:" + std::to_string((int)blk.type) + ":" + std::to_string(blk.length) + ":" + std::to_string(sb_binary_file_is_current_block_valid(&o.parser) ? 1 : 0));
+    } else {
+        add(out, "R" + std::to_string((int)rr));
+    }
 }
 
 // find route hex type -> rc_init [rc_find [type len start body|Erc  exrc [owned size body]]]
